@@ -201,14 +201,23 @@ def check(out, form, v, res):
                 stem, ext = os.path.splitext(lst)
                 want(stem, f"jr://{'file-csv' if ext == '.csv' else 'file'}/{lst}", "select-from-file")
         for col, val in c.items():
-            if isinstance(val, str) and "${last-saved#" in val and col.split("::")[0] in (
-                    "relevant", "constraint", "calculation", "required", "readonly", "choice_filter", "default", "label", "hint", "guidance_hint"):
+            # every cell kind in which references are substituted (logic, texts, messages, repeat_count, parameters, custom attributes)
+            if isinstance(val, str) and "${last-saved#" in val and col not in ("type", "name"):
                 if not expect.shadowed(c, col, dlang):
                     want("__last-saved", "jr://instance/last-saved", "last-saved")
             if col in ("relevant", "constraint", "calculation", "required", "readonly", "choice_filter", "default") and isinstance(val, str):
                 for m in re.finditer(r"pulldata\s*\(\s*(['\"])(.*?)\1\s*,", val):
                     want(m.group(2), f"jr://file-csv/{m.group(2)}.csv", "pulldata")
 
+    # choice labels and entity expressions are cells with references too
+    for lst in form.get("lists", []):
+        for r in lst["rows"]:
+            for col, val in r.items():
+                if col.split("::")[0] == "label" and isinstance(val, str) and "${last-saved#" in val and not expect.shadowed(r, col, dlang):
+                    want("__last-saved", "jr://instance/last-saved", "last-saved")
+    for r in form.get("entities") or []:
+        if any(isinstance(val, str) and "${last-saved#" in val for val in r.values()):
+            want("__last-saved", "jr://instance/last-saved", "last-saved")
     out.checked("C09.external-instances")
     for iid, (src, why) in ext_expected.items():
         hits = [e for e in sec_all if e.get("id") == iid]
@@ -280,6 +289,17 @@ def check(out, form, v, res):
                 out.fail("C09.select", "search-items", f"{n.path}: inline item values {vals}, expected {expv}")
             if any(xform.local(e) == "itemset" for e in xform.elems(ctrl)):
                 out.fail("C09.select", "search-has-itemset", f"{n.path}: search() select has an itemset")
+            # each inline item carries its label: the choice's text, or a reference to its itext entry
+            for it, kids in zip(items, exp_lists.get(lst, [])):
+                kd = dict(kids)
+                lab = next((k for k in xform.elems(it) if xform.local(k) == "label"), None)
+                if "itextId" in kd:
+                    if lab is None or not (lab.get("ref") or "").startswith("jr:itext("):
+                        out.fail("C09.select", "search-item-label-ref", f"{n.path}: item {kd.get('name')} has no itext label reference")
+                elif "label" in kd and "${" not in kd["label"] and "instance(" not in kd["label"]:
+                    got = "".join(lab.itertext()) if lab is not None else None
+                    if got != kd["label"]:
+                        out.fail("C09.select", "search-item-label", f"{n.path}: item {kd.get('name')} label {got!r}, expected {kd['label']!r}")
             continue
         its = [e for e in xform.elems(ctrl) if xform.local(e) == "itemset"]
         if len(its) != 1:
